@@ -48,10 +48,12 @@ class Thread:
         self.park = 'S'       # S, lookup, key, blocked, cleanup, release, count, keys, D
         self.cur = None       # dict for the lock in progress: slot, key, trying, limit
         self.releasing = None  # (key, kind) kind: 'slot' or 'cand'
+        self.cancelling = None
         self.cands = []       # remaining candidates of the running callback [(h,k)]
         self.handle_key = None  # key on which the thread currently owns a not-yet-guard handle (replica/queued/failed)
         self.done_implicit = False
         self.prelocked = False
+        self.pending = {}     # slot -> key: manually polled async acquisitions not yet completed
 
 
 class SchedOracle:
@@ -71,7 +73,20 @@ class SchedOracle:
         for th in self.threads:
             if th and th.handle_key is not None:
                 ks.add(th.handle_key)
+            if th:
+                ks |= set(th.pending.values())
         return ks
+
+    def awaited(self, k, but=None):
+        """some other thread is blocked on k or has a pending async acquisition on k"""
+        for o, oth in enumerate(self.threads):
+            if not oth or o == but:
+                continue
+            if oth.park == 'blocked' and oth.cur and oth.cur['key'] == k:
+                return True
+            if k in oth.pending.values():
+                return True
+        return False
 
     def held(self, k):
         """a guard for k is alive, or a thread owns the pre-locked placeholder it just inserted for k (between its lookup
@@ -84,11 +99,15 @@ class SchedOracle:
     def advance(self, t, th, evs, i):
         while True:
             if th.pc >= len(th.stmts):
-                if th.slots:
-                    slot = min(th.slots)
-                    k = th.slots.pop(slot)
-                    th.park = 'release'
-                    th.releasing = (k, ('slot', slot))
+                if th.slots or th.pending:
+                    slot = min(list(th.slots) + list(th.pending))
+                    if slot in th.slots:
+                        k = th.slots.pop(slot)
+                        th.park = 'release'
+                        th.releasing = (k, ('slot', slot))
+                    else:
+                        th.park = 'cancel'
+                        th.cancelling = slot
                     return
                 th.park = 'D'
                 return
@@ -100,6 +119,45 @@ class SchedOracle:
                 th.cur = dict(slot=slot, key=int(st[2]), trying=st[1] in ('t', 'to', 'ta', 'tao'),
                               limit=int(st[4]) if len(st) > 3 else None)
                 th.park = 'lookup'
+                return
+            if st[0] == 'alock':
+                th.pc += 1
+                slot = th.nslot
+                th.nslot += 1
+                th.cur = dict(slot=slot, key=int(st[2]), trying=False, limit=None, poll=True)
+                th.park = 'lookup'
+                return
+            if st[0] == 'apoll':
+                th.pc += 1
+                slot = int(st[1])
+                ev = evs.pop(0) if evs else None
+                if slot not in th.pending:
+                    if ev != 'skip':
+                        self.fail(['C05'], i, f'thread {t}: expected skip for apoll, got {ev}')
+                    continue
+                k = th.pending[slot]
+                if ev == f'poll{slot}=guard':
+                    if self.held(k):
+                        self.fail(['C01', 'C14'], i, f'thread {t}: pending acquisition completed on key {k} while a guard for it is alive')
+                    del th.pending[slot]
+                    th.slots[slot] = k
+                    self.guards[(t, 'slot', slot)] = k
+                elif ev == f'poll{slot}=pending':
+                    if not self.held(k) and not self.awaited(k, but=t) and list(th.pending.values()).count(k) == 1:
+                        self.fail(['C03', 'C14'], i, f'thread {t}: lost wake-up: key {k} is free, {t} is the only waiter, still pending')
+                else:
+                    self.fail(['C05'], i, f'thread {t}: unexpected {ev} for apoll')
+                continue
+            if st[0] == 'acancel':
+                th.pc += 1
+                slot = int(st[1])
+                if slot not in th.pending:
+                    ev = evs.pop(0) if evs else None
+                    if ev != 'skip':
+                        self.fail(['C05'], i, f'thread {t}: expected skip for acancel, got {ev}')
+                    continue
+                th.park = 'cancel'
+                th.cancelling = slot
                 return
             if st[0] == 'op':
                 th.pc += 1
@@ -188,7 +246,7 @@ class SchedOracle:
 
     def step(self, t, res, statuses, i):
         th = self.threads[t]
-        evs = [] if res == '-' else re.split(r',(?=lock\d+=|op\d+=|count=|keys=|ev=|skip|panic:|upanic|poisoned)', res)
+        evs = [] if res == '-' else re.split(r',(?=lock\d+=|poll\d+=|op\d+=|count=|keys=|ev=|skip|panic:|upanic|poisoned)', res)
         if any(e.startswith('panic:') or e == 'poisoned' for e in evs):
             self.fail(['C13'], i, f'thread {t}: library panic {evs}')
             th.park = 'D'
@@ -226,24 +284,29 @@ class SchedOracle:
         elif th.park == 'key':
             c = th.cur
             st = statuses.get(t)
-            if evs and evs[0].startswith('lock'):
+            if c.get('poll') and evs and evs[0] == f"lock{c['slot']}=pending":
+                evs.pop(0)
+                if not self.held(c['key']) and not self.awaited(c['key'], but=t):
+                    self.fail(['C03', 'C14'], i, f'thread {t}: async lock of key {c["key"]} is pending although nobody holds or awaits it')
+                th.pending[c['slot']] = c['key']
+                th.handle_key = None
+                th.prelocked = False
+                th.cur = None
+                self.advance(t, th, evs, i)
+            elif evs and evs[0].startswith('lock'):
                 self.got_guard(t, th, evs, i)
             elif st in ('B', 'W'):
                 if c['trying']:
                     self.fail(['C03', 'C05'], i, f'thread {t}: a try variant waits')
                 if not self.held(c['key']) and st == 'B':
                     # nobody holds the key, yet the thread sleeps: only legal if a waiter in front of it was handed the lock
-                    others = [o for o, oth in enumerate(self.threads) if oth and o != t and oth.park == 'blocked'
-                              and oth.cur and oth.cur['key'] == c['key']]
-                    if not others:
+                    if not self.awaited(c['key'], but=t):
                         self.fail(['C03', 'C14'], i, f'thread {t} blocks on key {c["key"]} which nobody holds or awaits')
                 th.park = 'blocked'
             elif st == 'G':
                 if not c['trying']:
                     self.fail(['C05'], i, f'thread {t}: waiting variant went to a clean-up section')
-                if not self.held(c['key']) and not any(
-                        oth and o != t and oth.park == 'blocked' and oth.cur and oth.cur['key'] == c['key']
-                        for o, oth in enumerate(self.threads)):
+                if not self.held(c['key']) and not self.awaited(c['key'], but=t):
                     self.fail(['C05', 'C14', 'C03'], i, f'thread {t}: try on key {c["key"]} failed although nobody holds or awaits it')
                 th.park = 'cleanup'
             else:
@@ -269,6 +332,10 @@ class SchedOracle:
                 self.next_cand(t, th)
             else:
                 self.advance(t, th, evs, i)
+        elif th.park == 'cancel':
+            th.pending.pop(th.cancelling, None)
+            th.cancelling = None
+            self.advance(t, th, evs, i)
         elif th.park in ('count', 'keys'):
             ev = evs.pop(0) if evs else ''
             pres = self.present()
